@@ -177,14 +177,27 @@ def dump_channels_eager(tdms_file):
     return out
 
 
-def real_read(data, nptdms=None, eager=True):
+class PartialReadinto(io.BytesIO):
+    """an in-memory binary stream whose `readinto` delivers at most `cap` bytes per call (as the io documentation allows for raw
+    streams); `read(n)` stays complete, so only bulk reads through readinto are split up"""
+
+    def __init__(self, data, cap):
+        super().__init__(data)
+        self.cap = cap
+
+    def readinto(self, b):
+        view = memoryview(b).cast("B")
+        return super().readinto(view[:self.cap] if len(view) > self.cap else view)
+
+
+def real_read(data, nptdms=None, eager=True, stream=io.BytesIO):
     """TdmsFile.read / TdmsFile.open on a BytesIO -> dict in the model's `read` shape"""
     nptdms = nptdms or import_nptdms()
     try:
         if eager:
-            f = nptdms.TdmsFile.read(io.BytesIO(data), raw_timestamps=True)
+            f = nptdms.TdmsFile.read(stream(data), raw_timestamps=True)
         else:
-            f = nptdms.TdmsFile.open(io.BytesIO(data), raw_timestamps=True)
+            f = nptdms.TdmsFile.open(stream(data), raw_timestamps=True)
     except Exception as ex:  # noqa
         return dict(ok=False, err=err_kind(ex), exc="%s: %s" % (type(ex).__name__, str(ex)[:200])), None
     d = dump_reader(f._reader)
